@@ -329,6 +329,7 @@ class Program:
                 try:
                     logs[name] = logs.get(name, []) + inline.restore_renamed(trees[name], name)
                     logs[name] += inline.restore_renamed_attributes(trees[name], name)
+                    logs[name] += inline.restore_parameter_order(trees[name], name)
                 except Exception as e:                  # pragma: no cover
                     trees[name] = ast.parse(text)
                     inline.PROTECTED[id(trees[name])] = set()
